@@ -11,6 +11,7 @@ package main
 // RequestFormatter from reflectively generated bodies.
 
 import (
+	"strings"
 	"bytes"
 	"context"
 	"errors"
@@ -228,7 +229,7 @@ func c11Metadata() metadata.ClusterMetadata {
 
 func c11Env() *vfc10gen.Env {
 	return &vfc10gen.Env{
-		Bounded: true,
+		Bounded: true, HostileGroupMetadata: true,
 		Topics:  []string{"orders", "payments", "orders", "no-such-topic", "fresh-topic"},
 		IDs:     [][16]byte{metadata.TopicIDForName("orders"), metadata.TopicIDForName("payments")},
 		Groups:  []string{"g1", "g2"},
@@ -332,6 +333,9 @@ func TestVF_C11_Broker(t *testing.T) {
 			st.Class("class:" + p.Class)
 			st.Class("outcome:" + out.Kind)
 			st.Class("mode:" + mode)
+			if strings.Contains(p.Shape.String(), "hostile-subscription") {
+				st.Class("joingroup-hostile-subscription-metadata")
+			}
 			if p.Acks0 {
 				if c11Acks0Appends(p.Req, store.unavailable) {
 					st.Class("acks0:some-batch-appendable")
@@ -367,7 +371,7 @@ func TestVF_C11_Broker(t *testing.T) {
 					t.Fatalf("%s is advertised but the connection was closed without a reply (%v)\nshape=%s frame=%x", p.Name(), out.Err, p.Shape, c11Clip(p.Frame))
 				}
 			case "reply", "reply-then-closed":
-				if p.Acks0 {
+				if p.Acks0 && out.Kind == "reply" {
 					// A client that produced with acks=0 reads no response. A frame written anyway stays in
 					// the stream and is taken for the reply to the NEXT request of the connection (wrong
 					// correlation id, wrong body), and every later reply is shifted by one.
